@@ -129,7 +129,7 @@ Inductive backend := BDict | BFs | BZip.
 Record variant := { fs_put_is_atomic : bool; zip_update_is_atomic : bool }.
 Definition snapshot : variant := {| fs_put_is_atomic := false; zip_update_is_atomic := false |}.
 Definition repaired : variant := {| fs_put_is_atomic := true; zip_update_is_atomic := true |}.
-Definition current : variant := snapshot.
+Definition current : variant := repaired.
 
 Definition put_steps (v : variant) (b : backend) (d : disk) (i : id) (x : doc) : list prim :=
   match b with
